@@ -30,7 +30,6 @@ from ..formula import extract, same, same_events, spec, _clip
 from ..model import AnalysisError
 from ..paths import enumerate_paths
 from ..termflow import (
-    AList,
     ATuple,
     Event,
     Poly,
@@ -39,6 +38,9 @@ from ..termflow import (
     g_and,
     g_cmp,
     key_atom,
+    poly_from_key,
+    _is_polykey,
+    TRUE,
     show,
     show_key,
     vkey,
@@ -65,24 +67,45 @@ def _same_any(ctx, rule, instance, fi, got, wants, what):
     return same(ctx, rule, instance, fi, got, wants[-1], what)
 
 
-def _returned(ex):
-    """Value of the (single) return expression in the merged state of the normally-returning paths
-    (the raising paths are excluded, so exception texts do not enter the comparison)."""
-    fi = ex.fi
-    own = []
-
-    def walk(n):
-        for c in ast.iter_child_nodes(n):
-            if isinstance(c, (ast.FunctionDef, ast.AsyncFunctionDef, ast.Lambda, ast.ClassDef)):
+def _nonraising(ex):
+    """[(guard, value key)] of the normally-returning alternatives of a function's result (raising paths
+    are dropped, so exception texts never enter a comparison; the last alternative is made unconditional)."""
+    res = ex.result
+    a = res.as_atom() if isinstance(res, Poly) else None
+    if a is not None and a[0] == "cond":
+        alts = []
+        for g, v in a[1]:
+            va = key_atom(v)
+            if va is not None and va[0] == "raise":
                 continue
-            if isinstance(c, ast.Return) and c.value is not None:
-                own.append(c)
-            walk(c)
+            alts.append((g, v))
+    else:
+        alts = [(TRUE, vkey(res))]
+    if not alts:
+        raise AnalysisError("%s: no normally-returning path" % ex.fi.qualname)
+    alts[-1] = (TRUE, alts[-1][1])
+    return alts
 
-    walk(fi.node)
-    if len(own) != 1:
-        raise AnalysisError("%s: expected exactly one `return <value>`, found %d (unrecognised shape)" % (fi.qualname, len(own)))
-    return ex.interp._eval_in(own[0].value, fi, ex.state.env)
+
+def _as_value(alts):
+    if len(alts) == 1:
+        k = alts[0][1]
+        return poly_from_key(k) if _is_polykey(k) else Poly.atom(("val", k))
+    return Poly.atom(("cond", tuple(alts)))
+
+
+def _returned(ex):
+    """The value returned on the non-raising paths, as one guarded term."""
+    return _as_value(_nonraising(ex))
+
+
+def _returned_components(ex, n):
+    """The n components of the tuple returned on the non-raising paths, each as one guarded term."""
+    alts = _nonraising(ex)
+    for g, v in alts:
+        if not (isinstance(v, tuple) and v and v[0] == "tuple" and len(v) == n + 1):
+            raise AnalysisError("%s: a returning path does not return a %d-tuple (unrecognised shape)" % (ex.fi.qualname, n))
+    return [_as_value([(g, v[1 + i]) for g, v in alts]) for i in range(n)]
 
 
 def _subs_of(ex, basekey):
@@ -101,17 +124,19 @@ def _events_named(ex, last):
 def _compare_store_tables(ctx, rule, label, fi, got, want, what):
     """`got`/`want`: {index key: value}.  Same index sets (= same loop domains), equal values."""
     gk, wk = set(got), set(want)
-    ok = ctx.check(
+    res = ctx.check(
         gk == wk and len(gk) > 0, rule, "%s: cells written" % label, fi.where(),
         "%s is written at %s but the specification writes %s" % (what, sorted(show_key(k) for k in gk) or "no index", sorted(show_key(k) for k in wk)),
         construct=fi.qualname, stmt=what + " index set",
         detail="indices %s" % sorted(show_key(k) for k in gk),
     )
-    if not ok:
-        return False
-    res = True
-    for k in sorted(gk, key=repr):
-        res = same(ctx, rule, "%s: %s[%s]" % (label, what, show_key(k)), fi, got[k], want[k], "%s[%s]" % (what, show_key(k)), stmt=what + " value") and res
+    for k in sorted(wk, key=repr):
+        inst = "%s: %s[%s]" % (label, what, show_key(k))
+        if k in got:
+            res = same(ctx, rule, inst, fi, got[k], want[k], "%s[%s]" % (what, show_key(k)), stmt=what + " value") and res
+        else:
+            ctx.fail(rule, inst, fi.where(), "the specified cell %s[%s] is never written" % (what, show_key(k)), construct=fi.qualname, stmt=what + " value")
+            res = False
     return res
 
 
@@ -163,9 +188,9 @@ def rule_E1(ctx):
             want = _subs_of(sp, _lse_arg(sp.result))
             _compare_store_tables(ctx, "E1", name, f, got, want, "ll")
             ctx.check(
-                any(a[0] == "call" and a[1] == "len" for a in _atoms_in(base)) and _mentions(base, vkey(_len_cn())), "E1",
-                name + ": the array has one entry per genotype (len(data.cn))", f.where(),
-                "the array reduced by log_sum_exp is %s, whose size is not len(data.cn)" % _clip(show_key(base)),
+                any(_mentions(base, k) for k in _genotype_tables()), "E1",
+                name + ": the array is sized by the genotype table (data.cn / data.mu / data.log_pi)", f.where(),
+                "the array reduced by log_sum_exp is %s, whose size does not derive from the genotype table" % _clip(show_key(base)),
                 construct=f.qualname, stmt="ll size",
             )
         same_events(ctx, "E1", name + ": pmf(n = a + b, x = b, ...) per genotype", f, ex.calls(pdf), sp.calls(pdf), "%s(...) calls" % pdf)
@@ -183,22 +208,9 @@ def rule_E1(ctx):
         ctx.fail("E1", "siblings: one pmf call per genotype in both functions", fbb.where(), "the two mixture functions do not call their pmf the same number of times / with the expected arity", construct=fbb.qualname, stmt="sibling shape")
 
 
-def _len_cn():
-    return Poly.atom(("call", "len", (Poly.atom(("attr", Poly.atom(("v", "P0")).key(), "cn")).key(),), ()))
-
-
-def _atoms_in(k):
-    out = []
-
-    def rec(x):
-        if isinstance(x, tuple):
-            if x and isinstance(x[0], str) and x[0] not in ("poly",):
-                out.append(x)
-            for y in x:
-                rec(y)
-
-    rec(k)
-    return out
+def _genotype_tables():
+    p0 = Poly.atom(("v", "P0")).key()
+    return [("attr", p0, a) for a in ("cn", "mu", "log_pi")]
 
 
 def _mentions(k, sub):
@@ -225,12 +237,11 @@ BIN_LIK = """
     else:
         lik = x * np.log(p) + (n - x) * np.log(1 - p)
 """
+# log-sum-exp of %(x)s -> z, over interpreted primitives; a conditional *expression*, so that the specification does
+# not fork paths where the code does not (forked paths carry separate list objects)
 LSE = """
     m = np.max(%(x)s)
-    if np.isinf(m):
-        z = m
-    else:
-        z = np.log(sum(np.exp(v) for v in %(x)s))
+    z = m if np.isinf(m) else np.log(sum(np.exp(v) for v in %(x)s))
 """
 
 # name -> (rule ids, no_inline, [spec sources])   (several sources = admissible equivalent spellings)
@@ -301,16 +312,16 @@ def rule_E3(ctx):
     ex = extract(prog, f)
     sp = spec(prog, SPEC_PRIOR, f)
     ev_g, ev_w = ex.calls("min"), sp.calls("min")
-    got, want = _returned(ex), _returned(sp)
-    if not (isinstance(got, ATuple) and len(got.items) == 3):
-        raise AnalysisError("get_major_cn_prior: the returned value is not a (cn, mu, log_pi) triple (unrecognised shape)")
+    got, want = _returned_components(ex, 3), _returned_components(sp, 3)
     okv = True
     for i, nm in enumerate(("cn (copy numbers of the normal / reference / variant populations)", "mu (per-population VAF, clamped to 1 - eps)", "log_pi (uniform, normalised)")):
-        okv = same(ctx, "E3", "get_major_cn_prior: " + nm, f, got.items[i], want.items[i], nm.split(" ")[0], stmt=nm.split(" ")[0]) and okv
+        okv = same(ctx, "E3", "get_major_cn_prior: " + nm, f, got[i], want[i], nm.split(" ")[0], stmt=nm.split(" ")[0]) and okv
     # the extra genotype is added exactly when it is absent: guards of the clamped-VAF computations
     if len(ev_g) != len(ev_w):
         if okv:
             raise AnalysisError("get_major_cn_prior: %d min(...) computations, specification has %d (unrecognised shape)" % (len(ev_g), len(ev_w)))
+        ctx.fail("E3", "get_major_cn_prior: rows are added under the specified conditions (extra row iff (normal, total, total) not yet present)", f.where(),
+                 "%d clamped-VAF computations min(1 - eps, .), the specification has %d (one per genotype row)" % (len(ev_g), len(ev_w)), construct=f.qualname, stmt="row guards")
     else:
         bad = None
         for i, (g, w) in enumerate(zip(ev_g, ev_w)):
@@ -340,6 +351,8 @@ def rule_E3(ctx):
     if npaths == 0:
         raise AnalysisError("get_major_cn_prior: no returning path")
     ctx.check(bad is None, "E3", "get_major_cn_prior: %s grow in lock step on all %d returning paths" % ("/".join(names), npaths), f.where(), bad or "", construct=f.qualname, stmt="lock step")
+    # mu and log_pi are real-valued: no integer dtype on the way out (np.array(x, dtype=...) is the identity for TermFlow)
+    _dtype_check(ctx, f)
     # MajorCopyNumberError exactly when major < minor
     a = ex.result.as_atom() if isinstance(ex.result, Poly) else None
     raises = []
@@ -353,6 +366,24 @@ def rule_E3(ctx):
     ctx.check(ok, "E3", "get_major_cn_prior: raises MajorCopyNumberError iff major_cn < minor_cn", f.where(),
               "raising alternatives found: %s (expected exactly one, MajorCopyNumberError under P0 < P1)" % [(show(g), t) for g, t in raises], construct=f.qualname, stmt="raise guard")
     ctx.analysed(f)
+
+
+INT_DTYPES = {"int", "np.int64", "np.int32", "np.int_", "numpy.int64", "'int'", "np.intp", "np.uint8", "bool"}
+
+
+def _dtype_check(ctx, f):
+    rets = [n for n in ast.walk(f.node) if isinstance(n, ast.Return) and n.value is not None]
+    if len(rets) != 1 or not isinstance(rets[0].value, ast.Tuple) or len(rets[0].value.elts) != 3:
+        raise AnalysisError("get_major_cn_prior: return is not a literal triple (unrecognised shape)")
+    for pos, what in ((1, "mu"), (2, "log_pi")):
+        e = rets[0].value.elts[pos]
+        exprs = [e]
+        if isinstance(e, ast.Name):
+            exprs = [s.value for s in ast.walk(f.node) if isinstance(s, ast.Assign) and any(isinstance(t, ast.Name) and t.id == e.id for t in s.targets)]
+        bad = [u(c) for x in exprs for c in calls(x) if kwarg(c, "dtype") is not None and u(kwarg(c, "dtype")) in INT_DTYPES]
+        bad += [u(c) for x in exprs for c in calls(x, last="astype") if c.args and u(c.args[0]) in INT_DTYPES]
+        ctx.check(not bad, "E3", "get_major_cn_prior: %s keeps a floating dtype" % what, f.where(rets[0]),
+                  "%s is cast to an integer dtype (%s): allele fractions / log-probabilities are truncated" % (what, "; ".join(bad)), construct=f.qualname, stmt=what + " dtype")
 
 
 # --------------------------------------------------------------------------- E4
@@ -447,7 +478,7 @@ def rule_E4(ctx):
     base = Poly.atom(("v", "P2")).key()
     _compare_store_tables(ctx, "E4", "_compute_liklihood_grid", k, _subs_of(ex, base), _subs_of(sp, base), "log_ll")
     cli, (choices, opt) = _cli_density_choices(prog)
-    ctx.check(choices == DENSITIES, "E4", "cli --density choices are exactly the densities the grid kernel dispatches on", "%s:%d" % (PYCLONE.replace("data/pyclone.py", "cli.py"), opt.lineno),
+    ctx.check(choices == DENSITIES, "E4", "cli --density choices are exactly the densities the grid kernel dispatches on", "phyclone/cli.py:%d" % opt.lineno,
               "the CLI accepts %s but the likelihood kernel fills the grid only for %s (any other value leaves the grid at its zero initial value)" % (sorted(choices), sorted(DENSITIES)),
               construct="phyclone.cli", stmt="--density choices")
     ctx.analysed(k)
@@ -650,6 +681,10 @@ SELFTEST = [
     _v("E1-max-instead-of-lse", "break", "E1", _P, "log_binomial_pdf(data.a + data.b, data.b, e_vaf)\n\n    return log_sum_exp(ll)", "log_binomial_pdf(data.a + data.b, data.b, e_vaf)\n\n    return np.max(ll)"),
     _v("E1-depth-is-ref-only", "break", "E1", _P, "log_beta_binomial_pdf(data.a + data.b, data.b, a, b)", "log_beta_binomial_pdf(data.a, data.b, a, b)"),
     _v("E1-normal-weight-is-t", "break", "E1", _P, **_mix(_BB_TAIL, "population_prior[0] = 1 - t\n", "population_prior[0] = t\n")),
+    # documented limit: the array is only required to be sized from the genotype table; an off-by-one in its
+    # length (numba does not bounds-check the write) is a numeric fact about np.ones' argument that E1 does not decide
+    _v("E1-array-too-short", "break", "E1", _P, old=_MIX_HEAD + _BIN_TAIL, new=_MIX_HEAD.replace("ll = np.ones(C, dtype=np.float64)", "ll = np.ones(C - 1, dtype=np.float64)") + _BIN_TAIL, documented_limit=True),
+    _v("benign-E1-np-full", "benign", None, _P, **_mix(_BB_TAIL, "    ll = np.ones(C, dtype=np.float64) * np.inf * -1\n", "    ll = np.full(C, -np.inf)\n")),
     _v("benign-E1-precompute-n", "benign", None, _P, "        ll[c] = data.log_pi[c] + log_binomial_pdf(data.a + data.b, data.b, e_vaf)\n", "        n = data.b + data.a\n        ll[c] = log_binomial_pdf(n, data.b, e_vaf) + data.log_pi[c]\n"),
     _v("benign-E1-reorder-weights-with-columns", "benign", None, _P, old=_MIX_HEAD + _BB_TAIL, new=_MIX_HEAD.replace(
         "population_prior[0] = 1 - t\n    population_prior[1] = t * (1 - f)\n    population_prior[2] = t * f\n",
@@ -685,6 +720,7 @@ SELFTEST = [
     _v("E3-extra-row-unclamped", "break", "E3", _P, "min(1 - error_rate, 1 / total_cn)", "1 / total_cn"),
     _v("E3-total-is-major", "break", "E3", _P, "    total_cn = major_cn + minor_cn\n", "    total_cn = major_cn\n"),
     _v("E3-lists-out-of-step", "break", "E3", _P, "    if mutation_after_cn not in cn:\n        cn.append(mutation_after_cn)\n", "    cn.append(mutation_after_cn)\n    if mutation_after_cn not in cn[:-1]:\n"),
+    _v("E3-mu-integer-dtype", "break", "E3", _P, "    mu = np.array(mu, dtype=float)\n", "    mu = np.array(mu, dtype=int)\n"),
     _v("E3-guard-direction", "break", "E3", _P, "    if major_cn < minor_cn:\n        raise", "    if major_cn > minor_cn:\n        raise"),
     _v("benign-E3-rename-reorder", "benign", None, _P, "    if mutation_after_cn not in cn:\n        cn.append(mutation_after_cn)\n\n        mu.append((error_rate, error_rate, min(1 - error_rate, 1 / total_cn)))\n", "    if not (mutation_after_cn in cn):\n        eps = error_rate\n        mu.append((eps, eps, min(1 - eps, 1 / (minor_cn + major_cn))))\n        cn.append(mutation_after_cn)\n"),
     # ---- E4
@@ -699,6 +735,11 @@ SELFTEST = [
     _v("E4-cluster-mean-not-sum", "break", "E4", _P, "val = np.sum(np.array(raw_data[cluster_id]), axis=0)", "val = np.mean(np.array(raw_data[cluster_id]), axis=0)"),
     _v("E4-swapped-tables", "break", "E4", _P, "            cluster_outlier_probs,\n            cluster_sizes,\n            clusters,\n            density,", "            cluster_sizes,\n            cluster_outlier_probs,\n            clusters,\n            density,"),
     _v("E4-unclustered-terms-swapped", "break", "E4", _P, "                outlier_prob=out_probs[0],\n                outlier_prob_not=out_probs[1],", "                outlier_prob=out_probs[1],\n                outlier_prob_not=out_probs[0],"),
+    _v("E4-dispatch-swapped", "break", "E4", _P, '            if density == "beta-binomial":', '            if density != "beta-binomial":'),
+    _v("E4-driver-swaps-density-precision", "break", "E4", _P, "        _compute_liklihood_grid(ccf_grid, density, log_ll, precision, numba", "        _compute_liklihood_grid(ccf_grid, precision, log_ll, density, numba"),
+    _v("E4-grid-shape-transposed", "break", "E4", _P, "        shape = (len(self.samples), grid_size)\n", "        shape = (grid_size, len(self.samples))\n"),
+    _v("E4-unclustered-size-zero", "break", "E4", _P, "out_probs = compute_outlier_prob(outlier_prob, 1)", "out_probs = compute_outlier_prob(outlier_prob, 0)"),
+    _v("E4-zero-guard-flipped", "break", "E4", _P, "    if outlier_prob == 0:\n        return outlier_prob, np.log(1.0)", "    if outlier_prob != 0:\n        return outlier_prob, np.log(1.0)"),
     _v("benign-E4-inline-grid", "benign", None, _P, "        ccf_grid = self.get_ccf_grid(grid_size)\n", "        ccf_grid = np.linspace(0, 1, grid_size)\n"),
     _v("benign-E4-zero-literal", "benign", None, _P, "        return outlier_prob, np.log(1.0)\n", "        return 0, 0.0\n"),
     _v("benign-E4-hoist-size", "benign", None, _P, "        out_probs = compute_outlier_prob(cluster_outlier_prob, cluster_sizes[cluster_id])\n", "        size = cluster_sizes[cluster_id]\n        out_probs = compute_outlier_prob(cluster_outlier_prob, size)\n"),
